@@ -28,56 +28,144 @@ Qed.
 Lemma w_sum ay az : w0 ay az + w1 ay az = 1.
 Proof. rewrite w0_cos, w1_sin. assert (H := sin2_cos2 (ay / 2)). unfold Rsqr in H. lra. Qed.
 
+(* ---------- assignments determined by the bits of a register ---------- *)
+Fixpoint place (qs : list nat) (k : list bool) : asg :=
+  match qs, k with q :: qs', v :: k' => upd (place qs' k') q v | _, _ => 0%N end.
+Lemma get_place_out qs : forall k p, ~ In p qs -> get (place qs k) p = false.
+Proof.
+  induction qs as [|q qs IH]; intros k p H. apply get_0.
+  destruct k as [|v k]. apply get_0. simpl.
+  rewrite get_upd_other by (intro E; apply H; left; auto). apply IH. intro I. apply H. now right.
+Qed.
+Lemma place_get qs x : NoDup qs -> forall p, In p qs -> get (place qs (map (get x) qs)) p = get x p.
+Proof.
+  induction qs as [|q qs IH]; intros Hn p Hp. destruct Hp.
+  inversion Hn; subst. cbn [map place]. destruct (Nat.eq_dec p q) as [->|Hq].
+  - apply get_upd_same.
+  - rewrite get_upd_other by auto. apply IH; auto. destruct Hp; [congruence|auto].
+Qed.
+
+(* a function that ignores every qubit outside qs is determined by the bits of qs (assignments have finite support) *)
+Lemma get_above x p : (N.log2 x < N.of_nat p)%N -> get x p = false.
+Proof. intros H. Transparent get. unfold get. apply N.bits_above_log2. exact H. Opaque get. Qed.
+Lemma agree_on {A} (f : asg -> A) qs : (forall p, ~ In p qs -> indepq p f) ->
+  forall x y, (forall p, In p qs -> get x p = get y p) -> f y = f x.
+Proof.
+  intros Hf x y H.
+  set (B := S (Nat.max (N.to_nat (N.log2 x)) (N.to_nat (N.log2 y)))).
+  set (L := filter (fun p => negb (existsb (Nat.eqb p) qs)) (seq 0 B)).
+  assert (HL : indeps L f).
+  { intros p Hp. apply Hf. apply filter_In in Hp as [_ Hp]. apply negb_true_iff in Hp.
+    intro I. assert (E : existsb (Nat.eqb p) qs = true) by (apply existsb_exists; exists p; split; auto; apply Nat.eqb_refl).
+    congruence. }
+  apply (indeps_agree L f HL). intros p Hp.
+  destruct (in_dec Nat.eq_dec p qs) as [I|I]. symmetry; now apply H.
+  assert (Hge : (B <= p)%nat).
+  { destruct (le_lt_dec B p); auto. exfalso. apply Hp. apply filter_In. split. apply in_seq. lia.
+    apply negb_true_iff. destruct (existsb (Nat.eqb p) qs) eqn:E; auto.
+    apply existsb_exists in E as [q [Hq Eq]]. apply Nat.eqb_eq in Eq. subst. tauto. }
+  rewrite !get_above; auto; unfold B in Hge; lia.
+Qed.
+
+Lemma F_on_bits qs c x : Forall (glocal qs) c -> NoDup qs ->
+  F (ASub qs c) x = F (ASub qs c) (place qs (map (get x) qs)).
+Proof.
+  intros W Hn. apply (agree_on (F (ASub qs c)) qs).
+  - intros p Hp. now apply (F_indep (ASub qs c) W p).
+  - intros p Hp. now apply place_get.
+Qed.
+
+(* sums over the bit strings of a register *)
+Fixpoint sumbits (m : nat) (g : list bool -> R) : R :=
+  match m with O => g [] | S m' => sumbits m' (fun k => g (false :: k)) + sumbits m' (fun k => g (true :: k)) end.
+Lemma sumq_bits ch : NoDup ch -> forall (g : list bool -> R) b,
+  sumq ch (fun x => g (map (get x) ch)) b = sumbits (length ch) g.
+Proof.
+  induction ch as [|c ch IH]; intros Hn g b. reflexivity.
+  inversion Hn; subst. cbn [sumq length sumbits].
+  assert (E : forall v, sumq ch (fun x => g (map (get x) (c :: ch))) (upd b c v) = sumbits (length ch) (fun k => g (v :: k))).
+  { intros v. rewrite <- (IH H2 (fun k => g (v :: k)) (upd b c v)).
+    rewrite sumq_indep_arg by auto. rewrite (sumq_indep_arg ch _ c v) by auto.
+    apply sumq_ext. intros x. cbn [map]. rewrite get_upd_same. reflexivity. }
+  now rewrite !E.
+Qed.
+
 (* probability of the path read at the positions ch *)
 Fixpoint prob (t : atree) (ch : list nat) (b : asg) : R :=
-  match t, ch with
-  | ANode _ ay az l r, c :: ch' => if get b c then w1 ay az * prob r ch' b else w0 ay az * prob l ch' b
-  | _, _ => 1
+  match t with
+  | ALeaf => 1
+  | ANode _ ay az l r =>
+      match ch with
+      | c :: ch' => if get b c then w1 ay az * prob r ch' b else w0 ay az * prob l ch' b
+      | [] => 1
+      end
+  | ASub qs c => Cn2 (F (ASub qs c) (place qs (map (get b) ch)))
   end.
 
+Lemma map_get_upd_other b p v ch : ~ In p ch -> map (get (upd b p v)) ch = map (get b) ch.
+Proof. intros H. apply map_ext_in. intros q Hq. apply get_upd_other. intros ->. auto. Qed.
 Lemma prob_indep t : forall ch p, ~ In p ch -> indepq p (prob t ch).
 Proof.
-  induction t as [|q ay az l IHl r IHr]; intros ch p Hp b v. reflexivity.
-  destruct ch as [|c ch]. reflexivity. cbn [prob].
-  rewrite get_upd_other by (intro E; apply Hp; left; auto).
-  rewrite (IHl ch p), (IHr ch p) by (intro I; apply Hp; now right). reflexivity.
+  induction t as [|q ay az l IHl r IHr|qs c]; intros ch p Hp b v. reflexivity.
+  - destruct ch as [|c ch]. reflexivity. cbn [prob].
+    rewrite get_upd_other by (intro E; apply Hp; left; auto).
+    rewrite (IHl ch p), (IHr ch p) by (intro I; apply Hp; now right). reflexivity.
+  - cbn [prob]. now rewrite map_get_upd_other.
 Qed.
 Lemma prob_positions t : forall ch ch' b b', map (get b) ch = map (get b') ch' -> prob t ch b = prob t ch' b'.
 Proof.
-  induction t as [|q ay az l IHl r IHr]; intros ch ch' b b' H. reflexivity.
-  destruct ch as [|c ch]; destruct ch' as [|c' ch']; try discriminate. reflexivity.
-  simpl in H. injection H as Hc Hr. cbn [prob]. rewrite Hc. now rewrite (IHl ch ch' b b' Hr), (IHr ch ch' b b' Hr).
+  induction t as [|q ay az l IHl r IHr|qs c]; intros ch ch' b b' H. reflexivity.
+  - destruct ch as [|c ch]; destruct ch' as [|c' ch']; try discriminate. reflexivity.
+    simpl in H. injection H as Hc Hr. cbn [prob]. rewrite Hc. now rewrite (IHl ch ch' b b' Hr), (IHr ch ch' b b' Hr).
+  - cbn [prob]. now rewrite H.
 Qed.
-Lemma prob_total t : forall d, balanced d t -> forall ch, length ch = d -> NoDup ch -> forall b, sumq ch (prob t ch) b = 1.
+
+(* normalisation of the sub-register states (a premise, checked numerically on every run) *)
+Fixpoint normed (t : atree) : Prop :=
+  match t with
+  | ALeaf => True
+  | ANode _ _ _ l r => normed l /\ normed r
+  | ASub qs c => forall b, sumq qs (fun x => Cn2 (F (ASub qs c) x)) b = 1
+  end.
+
+Lemma prob_total t : forall d, balanced d t -> wfsub t -> normed t -> NoDup (qubits t) ->
+  forall ch, length ch = d -> NoDup ch -> forall b, sumq ch (prob t ch) b = 1.
 Proof.
-  induction t as [|q ay az l IHl r IHr]; intros d Hd ch Hl Hn b.
-  - destruct d; [|destruct Hd]. destruct ch; [|discriminate]. reflexivity.
-  - destruct d as [|d]; [destruct Hd|]. destruct Hd as [Bl Br].
+  induction t as [|q ay az l IHl r IHr|qs c]; intros d Hd W Nm Nq ch Hl Hn b.
+  - simpl in Hd. subst. destruct ch; [|discriminate]. reflexivity.
+  - destruct d as [|d]; [destruct Hd|]. destruct Hd as [Bl Br]. destruct W as [Wl Wr]. destruct Nm as [Nl Nr].
+    cbn [qubits] in Nq. inversion Nq as [|? ? _ Nlr]; subst.
     destruct ch as [|c ch]; [discriminate|]. inversion Hn; subst. simpl in Hl.
     cbn [sumq].
     assert (E0 : forall v, sumq ch (prob (ANode q ay az l r) (c :: ch)) (upd b c v)
                            = (if v then w1 ay az else w0 ay az) * 1).
     { intros v. rewrite sumq_indep_arg by auto.
       rewrite (sumq_ext ch _ (fun x => (if v then w1 ay az else w0 ay az) * (if v then prob r ch x else prob l ch x))).
-      - rewrite sumq_scal. f_equal. destruct v; [apply (IHr d) | apply (IHl d)]; auto; lia.
+      - rewrite sumq_scal. f_equal.
+        destruct v; [apply (IHr d) | apply (IHl d)]; auto; try lia; [eapply nd_app_r | eapply nd_app_l]; eauto.
       - intros x. cbn [prob]. rewrite get_upd_same. destruct v.
         + now rewrite (prob_indep r ch c) by auto.
         + now rewrite (prob_indep l ch c) by auto. }
     rewrite (E0 false), (E0 true). rewrite !Rmult_1_r. apply w_sum.
+  - cbn [balanced qubits wfsub normed prob] in *.
+    rewrite (sumq_bits ch Hn (fun k => Cn2 (F (ASub qs c) (place qs k)))).
+    assert (Elen : length ch = length qs) by congruence. rewrite Elen. rewrite <- (sumq_bits qs Nq (fun k => Cn2 (F (ASub qs c) (place qs k))) b).
+    rewrite <- (Nm b). apply sumq_ext. intros x. now rewrite <- F_on_bits.
 Qed.
 
 (* ---------- structure of the qubit lists ---------- *)
 Lemma qubits_perm t : Permutation (qubits t) (chain t ++ rest t).
 Proof.
-  induction t as [|q ay az l IHl r IHr]; simpl. constructor.
-  constructor. rewrite app_assoc. apply Permutation_app_tail. exact IHl.
+  induction t as [|q ay az l IHl r IHr|qs c]; simpl. constructor.
+  - constructor. rewrite app_assoc. apply Permutation_app_tail. exact IHl.
+  - now rewrite app_nil_r.
 Qed.
 Lemma rest_sub t p : In p (rest t) -> In p (qubits t).
 Proof. intros H. apply (Permutation_in _ (Permutation_sym (qubits_perm t))). apply in_or_app. now right. Qed.
 Lemma chain_length t : forall d, balanced d t -> length (chain t) = d.
 Proof.
-  induction t as [|q ay az l IHl r IHr]; intros d H; destruct d; simpl in *; try tauto.
-  destruct H as [Hl _]. f_equal. now apply IHl.
+  induction t as [|q ay az l IHl r IHr|qs c]; intros d H; simpl in *; auto.
+  destruct d; [destruct H|]. destruct H as [Hl _]. f_equal. now apply IHl.
 Qed.
 
 (* ---------- re-indexing a sum through the swaps of two chains ---------- *)
@@ -152,25 +240,27 @@ Definition dens (t : atree) (x : asg) : R := Cn2 (F t x).
 Definition nrm (t : atree) (b : asg) : R := sumq (qubits t) (dens t) b.
 Definition mar (t : atree) (b : asg) : R := sumq (rest t) (dens t) b.
 
-Lemma dens_indep t p : ~ In p (qubits t) -> indepq p (dens t).
-Proof. intros H b v. unfold dens. now rewrite (F_indep t p H). Qed.
+Lemma dens_indep t p : wfsub t -> ~ In p (qubits t) -> indepq p (dens t).
+Proof. intros W H b v. unfold dens. now rewrite (F_indep t W p H). Qed.
 
 Lemma w1_zero ay az : rz0 ay = true -> w1 ay az = 0.
 Proof. intros H. apply rz0_true in H. subst. rewrite w1_sin. replace (0 / 2) with 0 by field. rewrite sin_0. ring. Qed.
 
-Theorem marginal : forall t d, balanced d t -> NoDup (qubits t) ->
+Theorem marginal : forall t d, balanced d t -> wfsub t -> normed t -> NoDup (qubits t) ->
   forall b, nrm t b = 1 /\ mar t b = prob t (chain t) b.
 Proof.
-  induction t as [|q ay az l IHl r IHr]; intros d Hd Hn.
+  induction t as [|q ay az l IHl r IHr|qs c]; intros d Hd W Nm Hn.
+  3:{ intros b. cbn [wfsub normed qubits] in *. split. apply Nm.
+      unfold mar, dens. cbn [rest chain prob sumq]. now rewrite <- F_on_bits. }
   - intros b. unfold nrm, mar, dens. simpl. rewrite Cn2_1. auto.
-  - destruct d as [|d]; [destruct Hd|]. destruct Hd as [Bl Br].
+  - destruct d as [|d]; [destruct Hd|]. destruct Hd as [Bl Br]. destruct W as [Wl Wr]. destruct Nm as [Nml Nmr].
     cbn [qubits] in Hn. inversion Hn as [|? ? Hq Hlr]; subst.
     assert (Nl : NoDup (qubits l)) by (eapply nd_app_l; eauto).
     assert (Nr : NoDup (qubits r)) by (eapply nd_app_r; eauto).
     assert (Hql : ~ In q (qubits l)) by (intro I; apply Hq; apply in_or_app; now left).
     assert (Hqr : ~ In q (qubits r)) by (intro I; apply Hq; apply in_or_app; now right).
     assert (Dlr : forall p, In p (qubits l) -> In p (qubits r) -> False) by (intros p; apply nd_app_disj; auto).
-    specialize (IHl d Bl Nl). specialize (IHr d Br Nr).
+    specialize (IHl d Bl Wl Nml Nl). specialize (IHr d Br Wr Nmr Nr).
     assert (Lc : length (chain l) = length (chain r)) by (rewrite (chain_length l d), (chain_length r d); auto).
     (* the density of the node *)
     assert (Dn : forall x, dens (ANode q ay az l r) x
@@ -187,8 +277,8 @@ Proof.
       assert (U : forall w, sumq (rest l ++ qubits r) (fun x => w * (dens l x * dens r x)) b
                             = w * (mar l b * nrm r b)).
       { intros w. rewrite sumq_scal. f_equal. unfold mar, nrm. apply sumq_prod.
-        - intros p Hp. apply dens_indep. intro I. eapply Dlr; eauto.
-        - intros p Hp. apply dens_indep. intro I. eapply Dlr; eauto. now apply rest_sub.
+        - intros p Hp. apply dens_indep; auto. intro I. eapply Dlr; eauto.
+        - intros p Hp. apply dens_indep; auto. intro I. eapply Dlr; eauto. now apply rest_sub.
         - intros p Hp I. eapply Dlr; eauto. now apply rest_sub. }
       destruct (get b q) eqn:G.
       + destruct (rz0 ay) eqn:Z.
@@ -221,8 +311,8 @@ Proof.
              ++ ring.
              ++ rewrite <- Ps, <- Pf. apply map_get_swapall.
                 rewrite app_assoc in NDall. now apply nd_app_l in NDall.
-          -- intros p Hp. apply dens_indep. intro I. eapply Dlr; eauto. now apply rest_sub.
-          -- intros p Hp. apply dens_indep. intro I. eapply Dlr; eauto.
+          -- intros p Hp. apply dens_indep; auto. intro I. eapply Dlr; eauto. now apply rest_sub.
+          -- intros p Hp. apply dens_indep; auto. intro I. eapply Dlr; eauto.
              apply (Permutation_in _ (Permutation_sym (qubits_perm l))). exact Hp.
           -- intros p Hp I. eapply Dlr; [|apply rest_sub; exact I].
              apply (Permutation_in _ (Permutation_sym (qubits_perm l))). exact Hp.
@@ -238,6 +328,9 @@ Proof.
     rewrite (sumq_ext _ _ (prob (ANode q ay az l r) (chain (ANode q ay az l r)))) by (intros x; apply M).
     apply (prob_total _ (S d)).
     + split; auto.
+    + split; auto.
+    + split; auto.
+    + cbn [qubits]. constructor; auto.
     + cbn [chain length]. f_equal. now apply chain_length.
     + apply (Permutation_NoDup P2) in Hn. now apply nd_app_l in Hn.
 Qed.
@@ -274,19 +367,19 @@ Proof.
     congruence.
 Qed.
 
-Theorem dcsp_marginal t d : balanced d t -> NoDup (qubits t) ->
+Theorem bdsp_marginal t d : balanced d t -> wfsub t -> normed t -> NoDup (qubits t) ->
   forall b, (forall p, ~ In p (qubits t) -> get b p = false) ->
-  sumq (rest t) (fun x => Cn2 (drun (bottom_up t) ket0 x)) b = prob t (chain t) b.
+  sumq (rest t) (fun x => Cn2 (drun (bdsp_gates t) ket0 x)) b = prob t (chain t) b.
 Proof.
-  intros Hd Hn b Hb.
+  intros Hd W Nm Hn b Hb.
   set (beta := fun x => ket0 (clearq (qubits t) x)).
   assert (Hbeta : indeps (qubits t) beta) by (intros q Hq x v; unfold beta; now rewrite clearq_indep).
   assert (K : ket0 = fun x => (Zq (qubits t) x * beta x)%C).
   { apply functional_extensionality; intros x. apply ket0_split. }
-  rewrite K, (bottom_up_frame t beta Hn Hbeta).
+  rewrite K, (bdsp_frame t beta W Hn Hbeta).
   rewrite (sumq_ext _ _ (fun x => Cn2 (beta x) * dens t x)) by (intros x; rewrite Cn2_mult; unfold dens; ring).
   rewrite sumq_factor.
-  - fold (mar t b). rewrite (proj2 (marginal t d Hd Hn b)).
+  - fold (mar t b). rewrite (proj2 (marginal t d Hd W Nm Hn b)).
     assert (B1 : beta b = RtoC 1).
     { unfold beta, ket0. assert (Z : clearq (qubits t) b = 0%N).
       { apply asg_ext. intros p. rewrite get_0. destruct (in_dec Nat.eq_dec p (qubits t)) as [I|I].
